@@ -73,11 +73,18 @@ def extract():
                                     else:
                                         problems.append(f"{node.name}: secure flag is not a constant")
                                         secure = True
+            argnames = None
+            for item in node.body:
+                if isinstance(item, ast.FunctionDef) and item.name == "getArgNames":
+                    rets = [r for r in ast.walk(item) if isinstance(r, ast.Return)]
+                    if (len(rets) == 1 and isinstance(rets[0].value, ast.List)
+                            and all(isinstance(e, ast.Constant) and isinstance(e.value, str) for e in rets[0].value.elts)):
+                        argnames = [e.value for e in rets[0].value.elts]
             uses_loadfile = any(isinstance(s, ast.Attribute) and s.attr in ("loadFile", "interpret") for s in ast.walk(node))
             eff = effects_of([i for i in node.body if isinstance(i, ast.FunctionDef)])
             if uses_loadfile and node.name == "FuncRun":
                 eff = sorted(set(eff) | {"Interpreter.loadFile"})
-            classes[node.name] = {"name": name, "secure": secure, "effects": eff}
+            classes[node.name] = {"name": name, "secure": secure, "effects": eff, "argnames": argnames}
     # bind_native arms
     arms = {}
     other_puts = []
@@ -142,7 +149,7 @@ def extract():
             if c is None:
                 problems.append(f"bind_native arm {key!r} instantiates unknown class {arm['class']}")
                 continue
-            natives[key] = {"class": arm["class"], "secure": c["secure"], "effects": c["effects"], "alias": arm["alias"]}
+            natives[key] = {"class": arm["class"], "secure": c["secure"], "effects": c["effects"], "alias": arm["alias"], "argnames": c.get("argnames")}
     # the flag as read from the source must be the flag an instance really carries (assignment order, inheritance, properties)
     try:
         core.use_repo()
@@ -199,6 +206,15 @@ def generate():
     for m, binds in tab["modules"].items():
         for n, a in binds:
             rows.append(f"  ({lean_str(m)}, {lean_str(n)}, {lean_str(a or '')})")
+    lines.append(",\n".join(rows) + "]")
+    lines += ["", "/-- `getArgNames()` of every built-in whose method returns a literal list: (native name, parameter names) -/",
+              "def nativeArgs : List (String × List String) := ["]
+    rows = []
+    for name in tab["names"]:
+        info = tab["natives"].get(name)
+        if info is None or info.get("argnames") is None:
+            continue
+        rows.append(f"  ({lean_str(name)}, [{', '.join(lean_str(a) for a in info['argnames'])}])")
     lines.append(",\n".join(rows) + "]")
     lines += ["", "end Ckl.Gen", ""]
     path = os.path.join(core.LEAN, "CklVerif", "Gen", "NativeTable.lean")
